@@ -9,6 +9,14 @@
 // by call against a plain map layered over the backing map, then executed a
 // second time on a fresh sandbox over sandbox.XMReaderFromRWSet(read set) /
 // sandbox.NewUTXOReaderFromInput(token inputs) and compared.
+//
+// Transfer is part of the alphabet with its outcomes: three payers (A rich, C
+// with 2 outputs of 2, D with nothing) x amounts around an output and around
+// the balance, so programs hold transfers that the node's real UTXO reader
+// refuses (no funds, not enough, used up by earlier transfers of the program)
+// before, between and after accepted ones. The reference tracks the outputs
+// each payer has left; the replay must refuse and accept the same transfers
+// and reproduce token inputs, token outputs and write set.
 package c10
 
 import (
@@ -44,9 +52,53 @@ const (
 	bNil, bEmp, bA, bB, bC, bD = 0, 1, 2, 3, 4, 5
 )
 
+// alphabetXfer: every Transfer of the model: the payers A (10 outputs of 100),
+// C (2 outputs of 2), D (nothing) x the amounts {0, within one output, exactly
+// one output, one more than an output, exactly the balance, one over, far
+// over}; 7 + 7 + 3 = 17 calls. Which of them the utxo reader refuses depends on
+// what the transfers before it in the program selected.
+func alphabetXfer() []op {
+	var out []op
+	for i, p := range payers {
+		for _, a := range xferAmounts(p) {
+			out = append(out, xfer(uint8(i), a))
+		}
+	}
+	return out
+}
+
+// xferFew: the transfers of the sub-alphabets of the longer programs: 1 and 0
+// from A (accepted / refused before the reader is asked: the two calls these
+// alphabets always had), 3 from C (accepted once, with both its outputs), 5
+// from C (refused: one over its balance).
+func xferFew() []op {
+	return []op{xfer(0, 1), xfer(0, 0), xfer(1, 3), xfer(1, 5)}
+}
+
+// alphabetXferCore: 8 transfers for the longest transfer-only programs: A
+// within one output / two outputs / over its balance, C within one output /
+// both outputs with change / exactly its balance / one over, D.
+func alphabetXferCore() []op {
+	return []op{xfer(0, 1), xfer(0, 101), xfer(0, 1001), xfer(1, 1), xfer(1, 3), xfer(1, 4), xfer(1, 5), xfer(2, 1)}
+}
+
+// alphabetMix: the 8 transfers of alphabetXferCore interleaved with 8
+// key-value calls (reads, writes, deletes and scans on the three buckets):
+// what a contract does between a refused transfer and the next one.
+func alphabetMix() []op {
+	out := alphabetXferCore()
+	out = append(out, point(0, opGet, 0)...)
+	out = append(out, point(0, opPut, 0, 1)...)
+	out = append(out, point(0, opDel, 0)...)
+	out = append(out, point(1, opGet, 0)...)
+	out = append(out, point(2, opPut, 0)...)
+	out = append(out, sel(0, bA, bD, consAll), sel(0, bNil, bNil, consAll))
+	return out
+}
+
 // alphabetFull: every call of the quantifier: Get / Put / Del on {a,b,c} in the
 // three buckets, Select with all 36 bound pairs x 3 consumptions in the three
-// buckets, Transfer of 1 and of 0.  27 + 324 + 2 = 353 calls.
+// buckets, all 17 transfers.  27 + 324 + 17 = 368 calls.
 func alphabetFull() []op {
 	var out []op
 	for b := uint8(0); b < 3; b++ {
@@ -63,14 +115,15 @@ func alphabetFull() []op {
 			}
 		}
 	}
-	out = append(out, op{kind: opXfer, amt: 1}, op{kind: opXfer, amt: 0})
+	out = append(out, alphabetXfer()...)
 	return out
 }
 
 // alphabetMid: all point calls on vb, four on each other bucket; on vb all 16
 // letter pairs x {one, all}, three early closes, all 20 pairs with a nil /
 // empty bound consumed fully and three of them with early stop; four scans on
-// each other bucket; both transfers.
+// each other bucket; the four transfers of xferFew and 1 from D (refused:
+// holds nothing).
 func alphabetMid() []op {
 	var out []op
 	for _, kind := range []opKind{opGet, opPut, opDel} {
@@ -98,7 +151,8 @@ func alphabetMid() []op {
 	for _, b := range []uint8{1, 2} {
 		out = append(out, sel(b, bA, bD, consAll), sel(b, bA, bD, consOne), sel(b, bNil, bNil, consAll), sel(b, bB, bA, consAll))
 	}
-	out = append(out, op{kind: opXfer, amt: 1}, op{kind: opXfer, amt: 0})
+	out = append(out, xferFew()...)
+	out = append(out, xfer(2, 1))
 	return out
 }
 
@@ -106,7 +160,7 @@ func alphabetMid() []op {
 // transient bucket (key a), 17 scans on vb (every proper pair fully, the full
 // range also closed at once and after one key, one inverted and one empty
 // range, six nil / empty bound pairs), one scan on vb2, two on the transient
-// bucket, both transfers.
+// bucket, the four transfers of xferFew.
 func alphabetSmall() []op {
 	var out []op
 	for _, kind := range []opKind{opGet, opPut, opDel} {
@@ -127,11 +181,12 @@ func alphabetSmall() []op {
 		sel(1, bA, bD, consAll),
 		sel(2, bA, bD, consAll), sel(2, bNil, bNil, consAll),
 	)
-	out = append(out, op{kind: opXfer, amt: 1}, op{kind: opXfer, amt: 0})
+	out = append(out, xferFew()...)
 	return out
 }
 
-// alphabetTiny: 14 calls for the longest programs.
+// alphabetTiny: 14 calls for the longest programs (long programs with
+// refused transfers: families xfer, xfercore and mix).
 func alphabetTiny() []op {
 	var out []op
 	out = append(out, point(0, opGet, 0, 1, 2)...)
@@ -141,16 +196,31 @@ func alphabetTiny() []op {
 	out = append(out,
 		sel(0, bA, bD, consAll), sel(0, bA, bD, consOne), sel(0, bB, bD, consAll), sel(0, bA, bC, consAll), sel(0, bNil, bNil, consAll),
 	)
-	out = append(out, op{kind: opXfer, amt: 1})
+	out = append(out, xfer(0, 1))
 	return out
 }
 
-// family: all programs of exactly `length` calls over `alpha`.
+// family: all programs of exactly `length` calls over `alpha`, each run on
+// the backing states `backs` (indexes, see backingOf).
 type family struct {
 	name   string
 	alpha  []op
 	length int
+	backs  []int
 }
+
+func allBackings() []int {
+	out := make([]int, 27)
+	for i := range out {
+		out[i] = i
+	}
+	return out
+}
+
+// xferBackings: transfer-only programs of length >= 4 name no key; they run
+// on the backing -LD only (every pair of the 17 transfers runs on all 27
+// backings in full^2, every triple of the 8 core transfers in mix^3).
+func xferBackings() []int { return []int{backing{stAbsent, stLive, stDeleted}.index()} }
 
 func (f family) size() int {
 	n := 1
@@ -179,10 +249,13 @@ func (f family) program(idx int, buf []op) []op {
 
 func families(tier core.Tier) []family {
 	full, mid, small, tiny := alphabetFull(), alphabetMid(), alphabetSmall(), alphabetTiny()
+	xf, xcore, mix := alphabetXfer(), alphabetXferCore(), alphabetMix()
+	all, xb := allBackings(), xferBackings()
 	if tier == core.Thorough {
-		return []family{{"full", full, 1}, {"full", full, 2}, {"mid", mid, 3}, {"small", small, 4}, {"tiny", tiny, 5}}
+		return []family{{"full", full, 1, all}, {"full", full, 2, all}, {"mid", mid, 3, all}, {"small", small, 4, all}, {"tiny", tiny, 5, all},
+			{"xfer", xf, 4, xb}, {"xfer", xf, 5, xb}, {"xfercore", xcore, 6, xb}, {"xfercore", xcore, 7, xb}, {"mix", mix, 3, all}, {"mix", mix, 4, all}, {"mix", mix, 5, xb}}
 	}
-	return []family{{"full", full, 1}, {"full", full, 2}, {"small", small, 3}}
+	return []family{{"full", full, 1, all}, {"full", full, 2, all}, {"small", small, 3, all}, {"xfer", xf, 4, xb}, {"mix", mix, 3, all}}
 }
 
 // ---------------------------------------------------------------------------
@@ -318,7 +391,7 @@ func run(tier core.Tier) *core.Report {
 				var skipUntil [27]int
 				for idx := j.from; idx < j.to; idx++ {
 					prog := f.program(idx, buf)
-					for bi := 0; bi < 27; bi++ {
+					for _, bi := range f.backs {
 						if idx < skipUntil[bi] {
 							res.st.pruned++
 							continue
@@ -397,7 +470,7 @@ func run(tier core.Tier) *core.Report {
 			complete = false
 		}
 		programs += done[i]
-		famCov = append(famCov, map[string]interface{}{"alphabet": f.name, "alphabet_size": len(f.alpha), "length": f.length, "programs": f.size(), "programs_done": done[i]})
+		famCov = append(famCov, map[string]interface{}{"alphabet": f.name, "alphabet_size": len(f.alpha), "length": f.length, "programs": f.size(), "programs_done": done[i], "backing_states": len(f.backs)})
 	}
 	rep.Set("families", famCov)
 	rep.Set("programs", programs)
@@ -421,18 +494,45 @@ func run(tier core.Tier) *core.Report {
 		"panics": total.panics, "traces_pruned_same_calls_up_to_a_panic": total.pruned, "read_set_entries": total.rsetEntries, "write_set_entries": total.wsetEntries,
 		"traces_with_a_finding": total.violating, "traces_clean": total.traces - total.violating,
 	})
+	byPayer := map[string]interface{}{}
+	for i, p := range payers {
+		byPayer[p.name] = map[string]int{"accepted": total.xferBy[i][0], "refused": total.xferBy[i][1]}
+	}
+	rep.Set("transfer_dimension", map[string]interface{}{
+		"payers":                          "A: 10 outputs of 100, C: 2 outputs of 2, D: none; receiver B",
+		"transfer_calls_in_full_alphabet": len(alphabetXfer()),
+		"by_payer":                        byPayer,
+		"refused_by_the_utxo_reader_positive_amount":          total.xferByReader,
+		"accepted_with_several_inputs":                        total.xferMultiInput,
+		"accepted_without_change":                             total.xferExact,
+		"accepted_after_a_refused_transfer":                   total.xferAfterRefuse,
+		"traces_with_a_transfer_accepted_after_a_refused_one": total.progsRefuseThenOK,
+		"distinct_accept_refuse_patterns_by_payer":            len(total.xferSeqs),
+		"token_inputs_recorded":                               total.utxoInputs,
+		"transfers_re_run_over_the_recorded_inputs":           total.replayXfers,
+		"of_which_refused_again":                              total.replayXferRefused,
+		"of_which_accepted_again_after_a_refused_one":         total.replayXferAfterRefuse,
+	})
 	rep.Set("violation_occurrences", occ)
-	rep.Set("state_definition", "reference state = backing (27) x per bucket/key {untouched, put, deleted} x {must be in the read set}")
+	rep.Set("rule", "every program (sequence of calls) of each family in `families` is enumerated in index order and run on the real sandbox over the real XModel and the real UTXO reader of a node for each of its backing states, "+
+		"then run again on a fresh sandbox over XMReaderFromRWSet(RWSet) and NewUTXOReaderFromInput(UTXORWSet.Rset) as verifyTxRWSets does. Calls: Get / Put / Del / Select and Transfer(payer, B, amount) with payer in {A, C, D} and amount in "+
+		"{0, within one output, one output, one more, the balance, one over, far over}; a transfer is accepted iff amount > 0 and the payer still has enough outputs not selected by an earlier transfer of the program, so programs hold refused transfers "+
+		"(no funds, not enough funds, funds used up, zero) before, between and after accepted ones of the same and of other payers. Judged per call: read-your-writes, exact scans, accept / refuse of every transfer; per trace: read set, write set, "+
+		"token inputs / outputs = accepted transfers in order with change; replay: same result of every call (incl. which transfers are refused), same write set, same token inputs and outputs. "+
+		"A trace is non-trivial when it reaches a new reference state (`states`).")
+	rep.Set("state_definition", "reference state = backing (27) x per bucket/key {untouched, put, deleted} x {must be in the read set} x outputs of A (0..10) and of C (0..2) not yet selected x {a transfer was refused by the utxo reader}")
 	rep.Set("bound", describeBound(fams))
 	rep.Set("reduction", "values: the value of a Put is fixed by its position in the program (p,q,r,s,t), never the delete marker; the sandbox compares values only with the delete marker and Del(k) = Put(k, marker) is enumerated as Del. "+
-		"Alphabets: lengths 1-2 use the complete alphabet of the quantifier (353 calls); longer programs use the sub-alphabets listed in `families` (fewer bound pairs / consumptions, fewer keys in the empty and the transient bucket). "+
-		"Every program runs on all 27 backing states; no sampling.")
+		"Alphabets: lengths 1-2 use the complete alphabet of the quantifier (368 calls); longer programs use the sub-alphabets listed in `families` (fewer bound pairs / consumptions, fewer keys in the empty and the transient bucket, 4-5 of the 17 transfers; families xfer / xfercore / mix carry the long programs around refused transfers). "+
+		"Transfers: outputs of one payer have equal size, so the ledger's choice among them (map order of its cache) changes neither the number selected nor the change; inputs are compared by owner and amount with the model and exactly (reference included) between run and replay. "+
+		"Every program runs on all 27 backing states, except the families listed with 1 backing state (transfer-only programs of length >= 4, which name no key, and mix^5 in the thorough tier): backing -LD; no sampling.")
 	rep.Set("exhaustive", complete)
 	for _, s := range samples() {
 		rep.Sample(s)
 	}
 	rep.Assume("the in-memory kv engine behaves as goleveldb for Get / range iteration (conformance checked in setup)")
-	rep.Assume("the node's UTXO reader is wrapped only to release the per-output locks after each program; it delegates every call")
+	rep.Assume("the node's UTXO reader is wrapped only to release the per-output locks after each program; it delegates every call (a refused SelectUtxo of the ledger releases what it tried by itself)")
+	rep.Assume("first run: a transfer must be accepted iff its amount is positive and covered by the payer's outputs not selected earlier in the same execution (the ledger locks what it selects)")
 	rep.Assume("nil / empty bounds: the statement does not fix their absolute meaning, so scans with such a bound are judged only by: yielded keys are live, ascending, carry the visible value; plus the replay clause")
 	rep.Assume("phantoms: the read set is not required to cover keys a scan did not yield (absent or deleted in the store)")
 	return rep
@@ -441,9 +541,10 @@ func run(tier core.Tier) *core.Report {
 func describeBound(fams []family) string {
 	var parts []string
 	for _, f := range fams {
-		parts = append(parts, fmt.Sprintf("%s^%d (%d calls, %d programs)", f.name, f.length, len(f.alpha), f.size()))
+		parts = append(parts, fmt.Sprintf("%s^%d (%d calls, %d programs, %d backings)", f.name, f.length, len(f.alpha), f.size(), len(f.backs)))
 	}
-	return "all programs of " + strings.Join(parts, ", ") + ", each on all 27 backing states {never written, live, deleted}^3 of (a,b,c) in bucket vb; buckets vb, vb2 (empty), $transient"
+	return "all programs of " + strings.Join(parts, ", ") + "; backing states {never written, live, deleted}^3 of (a,b,c) in bucket vb (27; the families listed with 1 backing: -LD); buckets vb, vb2 (empty), $transient; " +
+		"token state: A owns 10 outputs of 100, C 2 outputs of 2, D nothing; every transfer pays B"
 }
 
 // samples: a few actual traces (fixed programs on fixed backings).
@@ -458,6 +559,7 @@ func samples() []interface{} {
 		{"LDL", []string{"put vb b p", "sel vb a d all", "get vb c"}},
 		{"L-D", []string{"get vb c", "sel vb a d one", "xfer 1"}},
 		{"LLL", []string{"put $transient a p", "sel vb b d all", "del vb2 a"}},
+		{"-L-", []string{"xfer 5 from C", "xfer 3 from C", "xfer 1 from D", "put vb a p", "xfer 101"}},
 	} {
 		b, _ := parseBacking(s.b)
 		bw, err := buildWorld(b)
@@ -502,6 +604,7 @@ func trace(bw *bworld, prog []op) map[string]interface{} {
 			ws, _ := wsetMap(rw.WSet)
 			out["read_set"] = rs
 			out["write_set"] = describeWSet(ws)
+			out["token_inputs"] = describeUtxoIns(sb.UTXORWSet().Rset)
 			out["token_outputs"] = describeUtxoOuts(sb.UTXORWSet().WSet)
 		}
 	}
